@@ -200,7 +200,7 @@ def correspondence(rep, ctx):
         rep.case(("hpf", nm, u, x, via), sample={"cls": "HP", "nuclide": nm, "unit": u, "amount": x, "via": via} if j % 61 == 0 else None)
         if hpf_model is not None:
             mo = out_rat(hpf_model[j])
-            if mo[0] != "ok" or abs(qf - mo[1]) > Fraction(4, 10**15) * abs(mo[1]):
+            if mo[0] != "ok" or abs(qf - mo[1]) > Fraction(1, 10**14) * abs(mo[1]):
                 fail(desc, f"stores {float(qf)!r} atoms (x ln2 for activity); the amount read to 15 digits gives {mo[1] and float(mo[1])!r}")
     rep.corr["exhaustive"] = thorough
     rep.notes["mismatches"] = bad
